@@ -36,7 +36,7 @@ fn extra_idx(len: usize) -> Vec<usize> {
 
 fn coils_use(c: &Coils) -> String {
     let gx: String = extra_idx(c.len()).into_iter().map(|i| coil_char(c, i)).collect();
-    let it = match catch(|| c.into_iter().count()) {
+    let it = match catch(|| c.into_iter().take(c.len() + 2).count()) {
         Some(n) => n.to_string(),
         None => "!".into(),
     };
@@ -45,7 +45,7 @@ fn coils_use(c: &Coils) -> String {
 
 fn data_use(d: &Data) -> String {
     let gx = extra_idx(d.len()).into_iter().map(|i| word_str(d, i)).collect::<Vec<_>>().join(",");
-    let it = match catch(|| d.into_iter().count()) {
+    let it = match catch(|| d.into_iter().take(d.len() + 2).count()) {
         Some(n) => n.to_string(),
         None => "!".into(),
     };
@@ -397,7 +397,7 @@ fn step(t: &[&str]) -> String {
             match catch(|| Coils::from_bools(&bits, &mut tgt)) {
                 Some(Ok(c)) => {
                     let gx: String = idxs.iter().map(|i| coil_char(&c, *i)).collect();
-                    let it = match catch(|| c.into_iter().collect::<Vec<bool>>()) {
+                    let it = match catch(|| c.into_iter().take(c.len() + 2).collect::<Vec<bool>>()) {
                         Some(l) => bits_str(&l),
                         None => "!".into(),
                     };
@@ -423,7 +423,7 @@ fn step(t: &[&str]) -> String {
             match catch(|| Data::from_words(&ws, &mut tgt)) {
                 Some(Ok(d)) => {
                     let gx = idxs.iter().map(|i| word_str(&d, *i)).collect::<Vec<_>>().join(",");
-                    let it = match catch(|| d.into_iter().collect::<Vec<u16>>()) {
+                    let it = match catch(|| d.into_iter().take(d.len() + 2).collect::<Vec<u16>>()) {
                         Some(l) => words_str(&l),
                         None => "!".into(),
                     };
